@@ -1550,9 +1550,6 @@ V('05.12t', 'C05', '', 'silent', YTY,
   "            lambda value, context, *args, **kwargs: isinstance(\n                value, self.python_type) and all(\n                map(lambda t: t(value), self.validators)))",
   "            lambda value, context, *args, **kwargs: isinstance(\n                value, self.python_type) and all(\n                t(value) for t in self.validators))",
   'twin: generator expression instead of map')
-V('06.9', 'C06,C05', 'R0', 'fire', RUN,
-  "        return lambda: delegate()\n" if False else "PLACEHOLDER-NOT-PRESENT",
-  "x", 'placeholder, removed below')
 V('07.13', 'C07', 'R07j', 'fire', 'yaql/yaqlization.py',
   "            if not isinstance(value, str):\n                name = value[0]\n            else:\n                name = value\n            blacklist.add(name)\n",
   "            if isinstance(value, str):\n                blacklist.add(value)\n",
@@ -1609,8 +1606,4 @@ V('20.11', 'C20', 'R20a', 'fire', DAT,
   "    return DATETIME_TYPE.fromtimestamp(timestamp, tz=zone)",
   "    return DATETIME_TYPE.fromtimestamp(\n        timestamp / 1000.0 if timestamp > 1e11 else timestamp, tz=zone)",
   'millisecond guess scales the timestamp')
-V('02.10', 'C02', 'R02', 'fire', PAR,
-  "(abs(up), 'l' if up > 0 else 'r'), [])",
-  "(abs(up), 'l' if up > 0 or bp < 0 else 'l'), [])",
-  'placeholder-check: harmless respelling must stay silent' )
 VARIANTS = [v for v in VARIANTS if v is not None]
